@@ -262,10 +262,41 @@ impl Grid {
 /// slave side (so that the `TargetKind::Term` arm and console's own escape sequences run); the
 /// bytes arriving on the master side are fed to the same grid.
 pub struct Pty {
-    pub master: std::os::fd::OwnedFd,
     /// a third descriptor of the slave side, used only to send synchronisation marks
     pub sync: std::fs::File,
     pub bytes: u64,
+    /// what a reader thread has taken off the master side so far (a frame larger than the
+    /// kernel's pty buffer would otherwise block the writer for good: nobody else reads)
+    pub inbox: Arc<(Mutex<Vec<u8>>, std::sync::Condvar)>,
+    pub stop: Arc<std::sync::atomic::AtomicBool>,
+}
+
+impl Drop for Pty {
+    fn drop(&mut self) {
+        self.stop.store(true, std::sync::atomic::Ordering::SeqCst);
+    }
+}
+
+fn pty_reader(master: std::os::fd::OwnedFd, inbox: Arc<(Mutex<Vec<u8>>, std::sync::Condvar)>, stop: Arc<std::sync::atomic::AtomicBool>) {
+    let fd = std::os::fd::AsRawFd::as_raw_fd(&master);
+    let mut buf = [0u8; 8192];
+    while !stop.load(std::sync::atomic::Ordering::SeqCst) {
+        let mut pfd = libc::pollfd { fd, events: libc::POLLIN, revents: 0 };
+        // SAFETY: polling / reading a descriptor this thread owns
+        let rc = unsafe { libc::poll(&mut pfd, 1, 20) };
+        if rc <= 0 {
+            continue;
+        }
+        let n = unsafe { libc::read(fd, buf.as_mut_ptr() as *mut libc::c_void, buf.len()) };
+        if n > 0 {
+            let (m, cv) = &*inbox;
+            m.lock().unwrap().extend_from_slice(&buf[..n as usize]);
+            cv.notify_all();
+        } else if n == 0 || pfd.revents & (libc::POLLHUP | libc::POLLERR) != 0 {
+            // every descriptor of the slave side is closed
+            break;
+        }
+    }
 }
 
 /// Sent through the slave side before the master side is read: the kernel hands pty data over
@@ -380,7 +411,15 @@ impl SimTerm {
             return None;
         }
         let t = SimTerm::new(w, h);
-        t.lock().pty = Some(Pty { master, sync, bytes: 0 });
+        let inbox: Arc<(Mutex<Vec<u8>>, std::sync::Condvar)> = Arc::new((Mutex::new(vec![]), std::sync::Condvar::new()));
+        let stop = Arc::new(std::sync::atomic::AtomicBool::new(false));
+        {
+            let (i2, s2) = (inbox.clone(), stop.clone());
+            if std::thread::Builder::new().name("pty-reader".into()).spawn(move || pty_reader(master, i2, s2)).is_err() {
+                return None;
+            }
+        }
+        t.lock().pty = Some(Pty { sync, bytes: 0, inbox, stop });
         Some((t, term))
     }
 
@@ -388,12 +427,10 @@ impl SimTerm {
     /// arrived count as one painted frame
     pub fn pump(&self) {
         let mut s = self.lock();
-        let fd = match &s.pty {
-            Some(p) => std::os::fd::AsRawFd::as_raw_fd(&p.master),
+        let inbox = match &s.pty {
+            Some(p) => p.inbox.clone(),
             None => return,
         };
-        let mut got = Vec::new();
-        let mut buf = [0u8; 4096];
         {
             use std::io::Write;
             let p = s.pty.as_mut().unwrap();
@@ -403,25 +440,23 @@ impl SimTerm {
             }
         }
         let deadline = std::time::Instant::now() + std::time::Duration::from_secs(20);
-        loop {
-            // SAFETY: reading into a local buffer from a descriptor we own
-            let n = unsafe { libc::read(fd, buf.as_mut_ptr() as *mut libc::c_void, buf.len()) };
-            if n > 0 {
-                got.extend_from_slice(&buf[..n as usize]);
-            }
-            if got.len() >= PTY_MARK.len() && got.windows(PTY_MARK.len()).any(|w| w == PTY_MARK) {
-                break;
-            }
-            if n <= 0 {
+        let mut got: Vec<u8> = {
+            let (m, cv) = &*inbox;
+            let mut g = m.lock().unwrap();
+            loop {
+                if let Some(i) = g.windows(PTY_MARK.len()).position(|w| w == PTY_MARK) {
+                    // everything up to and including the mark
+                    let rest = g.split_off(i + PTY_MARK.len());
+                    let taken = std::mem::replace(&mut *g, rest);
+                    break taken;
+                }
                 if std::time::Instant::now() > deadline {
                     s.xcheck_error = Some("pty: the synchronisation mark did not arrive within 20 s".into());
                     return;
                 }
-                let mut pfd = libc::pollfd { fd, events: libc::POLLIN, revents: 0 };
-                // SAFETY: polling a descriptor we own
-                unsafe { libc::poll(&mut pfd, 1, 50) };
+                g = cv.wait_timeout(g, std::time::Duration::from_millis(50)).unwrap().0;
             }
-        }
+        };
         // take the mark out again
         while let Some(i) = got.windows(PTY_MARK.len()).position(|w| w == PTY_MARK) {
             got.drain(i..i + PTY_MARK.len());
